@@ -778,6 +778,8 @@ func (fr *Frame) execInstr(st *State, in ssa.Instruction) {
 		if fr.top && fr.spec.Safety {
 			r.oblige(st, "nil-deref", fr.siteLabel(in), "pointer is not nil", not(eq(base, "0")))
 		}
+		// taking a field's address through a nil pointer panics here: execution continues only with a non-nil pointer
+		r.assume(st, not(eq(base, "0")))
 		if isAggregate(ft) {
 			fr.bind(st, x, TV{app(s.subFunc(si, x.Field), base), SInt, x.Type()})
 		} else {
